@@ -2,9 +2,9 @@ package main
 
 import (
 	"fmt"
-	"os"
 	"go/token"
 	"go/types"
+	"os"
 	"sort"
 	"strings"
 
@@ -23,7 +23,9 @@ type mergeSummary struct {
 	items []string
 }
 
-func (m *mergeSummary) add(f string, a ...interface{}) { m.items = append(m.items, fmt.Sprintf(f, a...)) }
+func (m *mergeSummary) add(f string, a ...interface{}) {
+	m.items = append(m.items, fmt.Sprintf(f, a...))
+}
 
 func (c *Ctx) ruleBinarySearch(rule string) {
 	f := c.MustFn(rule, "internal/tool", "", "BinarySearch")
@@ -354,6 +356,18 @@ func (c *Ctx) mergeModel(rule string, f *ssa.Function) *mergeSummary {
 		base, _, _ := x.sliceInterval(v)
 		return lo.equal(constForm(0)) && hi.equal(x.symLen(base))
 	}
+	// the copy may first be made in a variable of its own and moved into the working variable
+	isRuleListCell := func(a *ssa.Alloc) bool {
+		if isListCell(a) {
+			return true
+		}
+		pt, ok := a.Type().(*types.Pointer)
+		if !ok {
+			return false
+		}
+		sl, ok := pt.Elem().Underlying().(*types.Slice)
+		return ok && structName(sl.Elem()) == "RuleEntity" && a.Parent() == f
+	}
 	madeWithLen := func(cell *ssa.Alloc) bool {
 		for _, st := range x.stores[cell] {
 			if ms, ok := x.Origin(st.Val).(*ssa.MakeSlice); ok {
@@ -371,7 +385,7 @@ func (c *Ctx) mergeModel(rule string, f *ssa.Function) *mergeSummary {
 		switch t := i.(type) {
 		case *ssa.Store:
 			if ia, ok := t.Addr.(*ssa.IndexAddr); ok {
-				if cell := x.Cell(ia.X); cell != nil && isListCell(cell) {
+				if cell := x.Cell(ia.X); cell != nil && isRuleListCell(cell) {
 					if s, _, isR := x.rangedSlice(t.Val); isR && isInstalledList(s) && whole(s) {
 						// position k of the copy receives position k of the installed list
 						if x.sameIndex(ia, t.Val) {
@@ -381,7 +395,7 @@ func (c *Ctx) mergeModel(rule string, f *ssa.Function) *mergeSummary {
 				}
 				return
 			}
-			if cell, ok := x.ResolveAddr(t.Addr).(*ssa.Alloc); ok && isListCell(cell) {
+			if cell, ok := x.ResolveAddr(t.Addr).(*ssa.Alloc); ok && isRuleListCell(cell) {
 				// append([]T(nil) / s[:0] of a fresh slice, installed...)
 				if args, isApp := builtinCall(t.Val, "append"); isApp && len(args) == 2 && isInstalledList(args[1]) && whole(args[1]) {
 					if c0, isC := x.Origin(args[0]).(*ssa.Const); isC && c0.IsNil() {
@@ -391,7 +405,7 @@ func (c *Ctx) mergeModel(rule string, f *ssa.Function) *mergeSummary {
 			}
 		case *ssa.Call:
 			if args, isCopy := builtinCall(t, "copy"); isCopy && isInstalledList(args[1]) && whole(args[1]) {
-				if cell := x.Cell(args[0]); cell != nil && isListCell(cell) && whole(args[0]) {
+				if cell := x.Cell(args[0]); cell != nil && isRuleListCell(cell) && whole(args[0]) {
 					outer, okCopyList, okLen = cell, true, madeWithLen(cell)
 				}
 			}
@@ -404,6 +418,43 @@ func (c *Ctx) mergeModel(rule string, f *ssa.Function) *mergeSummary {
 				outer = l
 			}
 		}
+	}
+	// the copy may be moved into another variable before the merge starts (a field of a small
+	// state struct, `st := &mergeState{sorted: sorted}`): that variable is the working list then
+	for moved := 0; moved < 4; moved++ {
+		var next *ssa.Alloc
+		for _, l := range listCells {
+			if l == outer {
+				continue
+			}
+			for _, st := range x.stores[l] {
+				if L.Blocks[st.Block()] || st.Parent() != f {
+					continue
+				}
+				if x.directCell(x.lastLoad(st.Val)) != outer {
+					continue
+				}
+				first := true
+				for _, o := range x.stores[l] {
+					if o != st && !domInstr(st, o) {
+						first = false
+					}
+				}
+				// and the old variable is not written any more
+				for _, o := range x.stores[outer] {
+					if domInstr(st, o) {
+						first = false
+					}
+				}
+				if first {
+					next = l
+				}
+			}
+		}
+		if next == nil {
+			break
+		}
+		outer = next
 	}
 	// lookup of the old entry
 	var oldLk *ssa.Lookup
@@ -469,6 +520,11 @@ func (c *Ctx) mergeModel(rule string, f *ssa.Function) *mergeSummary {
 				return
 			}
 			cell, _ := x.ResolveAddr(t.Addr).(*ssa.Alloc)
+			if os.Getenv("GVERIF_DEBUG") != "" {
+				if fa, isFA := t.Addr.(*ssa.FieldAddr); isFA {
+					fmt.Fprintf(os.Stderr, "store to field %s at %s: resolves to %T %v; X resolves to %T\n", fieldOf(fa).Name(), c.pos(in.Pos()), x.ResolveAddr(t.Addr), x.ResolveAddr(t.Addr), x.ResolveAddr(fa.X))
+				}
+			}
 			if cell == nil {
 				return
 			}
@@ -510,7 +566,9 @@ func (c *Ctx) mergeModel(rule string, f *ssa.Function) *mergeSummary {
 				insertTargets[cell] = true
 				if os.Getenv("GVERIF_DEBUG") != "" {
 					fmt.Fprintf(os.Stderr, "insert %s: okBack=%v cell=%s@%s srcCell=%v backCell=%v same=%v\n", c.pos(in.Pos()), okBack, cell.Comment, c.pos(cell.Pos()), srcCell, x.Cell(back.X), okBack && x.sameValue(back.Low, front.High))
-					if srcCell != nil { fmt.Fprintf(os.Stderr, "   src=%s@%s\n", srcCell.Comment, c.pos(srcCell.Pos())) }
+					if srcCell != nil {
+						fmt.Fprintf(os.Stderr, "   src=%s@%s\n", srcCell.Comment, c.pos(srcCell.Pos()))
+					}
 				}
 				// ire = []*RuleEntity{v}
 				okIre := false
